@@ -45,14 +45,27 @@ theorem visit_binop (op : ArithOp) (l r : Expr) : saVisit fields core (.binop op
     (saVisit fields core l >>= fun p => saVisit fields core r >>= fun q =>
       if p.2 == .list || q.2 == .list then .foreign "unmodelled" else .ok (on2 (OQ.arithName op) p.1 q.1, .expr)) := by
   rw [saVisit.eq_9]; rfl
-theorem visit_compare (op : CmpOp) (l r : Expr) : saVisit fields core (.compare op l r) =
+/-- the comparison when the operands are NOT swapped: the left operand is not the null literal (every left operand of the typed grammar), … -/
+theorem visit_compare (op : CmpOp) (l r : Expr) (hl : isNullLit l = false) : saVisit fields core (.compare op l r) =
     (saVisit fields core l >>= fun p => saVisit fields core r >>= fun q =>
       if op == .in_ then (if p.2 == .list then .foreign "AttributeError" else .ok (on2 "in" p.1 q.1, .cond))
       else if p.2 == .list || q.2 == .list then .foreign "unmodelled"
       else if (op == .lt || op == .le || op == .gt || op == .ge) && (isConstT p.1 || isConstT q.1) then
         .lib (.type_ (cmpClass op).toList)
       else .ok (on2 (cmpLookup op) p.1 q.1, .cond)) := by
-  rw [saVisit.eq_10]; rfl
+  rw [saVisit.eq_10]; simp only [hl, Bool.false_and, Bool.false_eq_true, if_false]; rfl
+/-- … or the comparator is `in` -/
+theorem visit_compare_in (l r : Expr) : saVisit fields core (.compare .in_ l r) =
+    (saVisit fields core l >>= fun p => saVisit fields core r >>= fun q =>
+      if CmpOp.in_ == CmpOp.in_ then (if p.2 == .list then .foreign "AttributeError" else .ok (on2 "in" p.1 q.1, .cond))
+      else if p.2 == .list || q.2 == .list then .foreign "unmodelled"
+      else if (CmpOp.in_ == .lt || CmpOp.in_ == .le || CmpOp.in_ == .gt || CmpOp.in_ == .ge) && (isConstT p.1 || isConstT q.1) then
+        .lib (.type_ (cmpClass .in_).toList)
+      else .ok (on2 (cmpLookup .in_) p.1 q.1, .cond)) := by
+  rw [saVisit.eq_10]
+  simp only [show (CmpOp.in_ == CmpOp.eq) = false from rfl, show (CmpOp.in_ == CmpOp.ne) = false from rfl, Bool.or_false,
+    Bool.and_false, Bool.false_eq_true, if_false]
+  rfl
 theorem visit_boolop (op : BoolOp) (l r : Expr) : saVisit fields core (.boolop op l r) =
     (saVisit fields core l >>= fun p => saVisit fields core r >>= fun q =>
       .ok (on2 (if op == .and_ then "and" else "or") p.1 q.1, .cond)) := by
@@ -236,9 +249,9 @@ theorem okB_ite {c : Prop} [Decidable c] {a b : Outcome (OTree × OKind)} (ha : 
     okB (if c then a else b) = true := by
   split <;> assumption
 
-theorem okB_cmp (k : CmpK) (l r : Expr) (hl : okB (saVisit fields core l) = true) (hr : okB (saVisit fields core r) = true) :
+theorem okB_cmp (k : CmpK) (l r : Expr) (hn : isNullLit l = false) (hl : okB (saVisit fields core l) = true) (hr : okB (saVisit fields core r) = true) :
     okB (saVisit fields core (.compare k.toOp l r)) = true := by
-  rw [visit_compare]
+  rw [visit_compare _ _ _ _ _ hn]
   revert hl hr; generalize saVisit fields core l = x; generalize saVisit fields core r = y
   rcases x with ⟨a, ka⟩ | _ | _ | _ <;> rcases y with ⟨b, kb⟩ | _ | _ | _ <;> simp [okB, toOp_in]
   intro h1 _ h2 _
@@ -248,7 +261,7 @@ theorem okB_cmp (k : CmpK) (l r : Expr) (hl : okB (saVisit fields core l) = true
 theorem okB_in (l : Expr) (xs : Exprs) (hl : okI (saVisit fields core l) = true)
     (hxs : SqlTotal.clean (saVisitList fields core xs) = true) :
     okB (saVisit fields core (.compare .in_ l (.list xs))) = true := by
-  rw [visit_compare, visit_list]
+  rw [visit_compare_in, visit_list]
   revert hl hxs; generalize saVisit fields core l = x; generalize saVisitList fields core xs = y
   rcases x with ⟨a, ka⟩ | _ | _ | _ <;> rcases y with b | _ | _ | _ <;> simp [okI, okB, SqlTotal.clean]
   intro h1 _
@@ -263,15 +276,15 @@ theorem okB_bool (op : BoolOp) (l r : Expr) (hl : okB (saVisit fields core l) = 
 theorem okB_B : (b : BoolE) → okB (saVisit fields core b.toExpr) = true
   | .cmpI k l r => by
       rw [BoolE.toExpr]
-      exact okB_cmp fields core k _ _ (okB_of_okI (okI_I fields core l)) (okB_of_okI (okI_I fields core r))
+      exact okB_cmp fields core k _ _ (C01.isNullLit_I l) (okB_of_okI (okI_I fields core l)) (okB_of_okI (okI_I fields core r))
   | .cmpS k l r => by
       rw [BoolE.toExpr]
-      exact okB_cmp fields core k _ _ (okB_of_okI (okI_S fields core l)) (okB_of_okI (okI_S fields core r))
+      exact okB_cmp fields core k _ _ (C01.isNullLit_S l) (okB_of_okI (okI_S fields core l)) (okB_of_okI (okI_S fields core r))
   | .cmpB k l r => by
       rw [BoolE.toExpr]
-      exact okB_cmp fields core k _ _ (okB_B l) (okB_B r)
+      exact okB_cmp fields core k _ _ (C01.isNullLit_B l) (okB_B l) (okB_B r)
   | .isNull _ c negated => by
-      rw [BoolE.toExpr, visit_compare, visit_id, visit_nullLit]
+      rw [BoolE.toExpr, visit_compare _ _ _ _ _ rfl, visit_id, visit_nullLit]
       cases negated <;> (split <;> simp [okB, isNullConst, on2, isConstT])
   | .inI e xs => by
       rw [BoolE.toExpr]; exact okB_in fields core _ _ (okI_I fields core e) (cleanIs fields core xs)
@@ -330,14 +343,14 @@ theorem agreeSs : (xs : List StrE) → saVisitList fields false (strsToExprs xs)
   | e :: t => by rw [strsToExprs, visitList_cons, visitList_cons, agreeS fields e, agreeSs t]
 
 theorem agreeB : (b : BoolE) → saVisit fields false b.toExpr = saVisit fields true b.toExpr
-  | .cmpI k l r => by rw [BoolE.toExpr, visit_compare, visit_compare, agreeI fields l, agreeI fields r]
-  | .cmpS k l r => by rw [BoolE.toExpr, visit_compare, visit_compare, agreeS fields l, agreeS fields r]
-  | .cmpB k l r => by rw [BoolE.toExpr, visit_compare, visit_compare, agreeB l, agreeB r]
-  | .isNull _ c n => by rw [BoolE.toExpr, visit_compare, visit_compare, visit_id, visit_id, visit_nullLit, visit_nullLit]
+  | .cmpI k l r => by rw [BoolE.toExpr, visit_compare _ _ _ _ _ (C01.isNullLit_I l), visit_compare _ _ _ _ _ (C01.isNullLit_I l), agreeI fields l, agreeI fields r]
+  | .cmpS k l r => by rw [BoolE.toExpr, visit_compare _ _ _ _ _ (C01.isNullLit_S l), visit_compare _ _ _ _ _ (C01.isNullLit_S l), agreeS fields l, agreeS fields r]
+  | .cmpB k l r => by rw [BoolE.toExpr, visit_compare _ _ _ _ _ (C01.isNullLit_B l), visit_compare _ _ _ _ _ (C01.isNullLit_B l), agreeB l, agreeB r]
+  | .isNull _ c n => by rw [BoolE.toExpr, visit_compare _ _ _ _ _ rfl, visit_compare _ _ _ _ _ rfl, visit_id, visit_id, visit_nullLit, visit_nullLit]
   | .inI e xs => by
-      rw [BoolE.toExpr, visit_compare, visit_compare, visit_list, visit_list, agreeI fields e, agreeIs fields xs]
+      rw [BoolE.toExpr, visit_compare_in, visit_compare_in, visit_list, visit_list, agreeI fields e, agreeIs fields xs]
   | .inS e xs => by
-      rw [BoolE.toExpr, visit_compare, visit_compare, visit_list, visit_list, agreeS fields e, agreeSs fields xs]
+      rw [BoolE.toExpr, visit_compare_in, visit_compare_in, visit_list, visit_list, agreeS fields e, agreeSs fields xs]
   | .and l r => by rw [BoolE.toExpr, visit_boolop, visit_boolop, agreeB l, agreeB r]
   | .or l r => by rw [BoolE.toExpr, visit_boolop, visit_boolop, agreeB l, agreeB r]
   | .not e => by rw [BoolE.toExpr, visit_unary, visit_unary, agreeB e]
